@@ -211,6 +211,30 @@ class EffectAnalysis:
         if k == "Ret":
             return (self.ev(e["e"], b, depth) if "e" in e else Eff()) + Eff(diverges=False)
         acc = Eff()
+        if k == "MethodCall" and e["method"] in ("collect", "for_each", "count", "last", "sum", "try_for_each"):
+            # a consumed iterator chain over a range: `(a..b).map(|_| stack.pop()).collect()` runs its closures once per element
+            links, cur = [], e
+            while F.strip(cur).get("k") == "MethodCall":
+                cur = F.strip(cur)
+                links.append(cur)
+                cur = cur["recv"]
+            base = F.strip(cur)
+            clos = [(l, F.strip(a)) for l in links for a in l["args"] if F.strip(a).get("k") == "Closure"]
+            effs = [(l, self.ev(c["body"], b, depth)) for l, c in clos]
+            if any(x.key() != Eff().key() for _, x in effs):
+                rng = base if base.get("k") == "Struct" and (base.get("adt") or "").endswith("ops::Range") else None
+                plain = all(l["method"] in ("map", "into_iter", "for_each", "try_for_each", "collect", "count", "last", "sum", "inspect") for l in links)
+                count = None
+                if rng is not None and plain:
+                    fl = {f["field"]: f["e"] for f in rng["fields"]}
+                    lo, hi = self.lin_n(fl["start"], b), self.lin_n(fl["end"], b)
+                    if lo is not None and hi is not None:
+                        count = (hi[0] - lo[0], hi[1] - lo[1])
+                if count is None:
+                    return Eff(notes=("iterator chain with stack effect and unknown trip count",), pops=(10 ** 6, 0))
+                for _, x in effs:
+                    acc = acc + x.times(count)
+                return acc
         if k == "MethodCall":
             acc = acc + self.ev(e["recv"], b, depth)
             for a in e["args"]:
@@ -802,6 +826,19 @@ def check_r073(fx, rep, cg, dm):
             ok = "from_le_bytes" in names and "from_be_bytes" not in names and "rev" not in names and "reverse" not in names
             rep.oblige(ok, "R07.3", "push-endianness", F.loc(b["span"]), f"PUSHn converts its stored immediate with {names}: the stored bytes are little-endian (reversed once on construction) and must be read with from_le_bytes, unreversed", sample={"rule": "R07.3", "push_word": names})
             pads = [c for c, _ in F.calls(b["hir"]["value"]) if (F.callee_def(c) or "").endswith("::resize")]
+            if not pads:
+                # a zeroed word-sized buffer the immediate is copied into: the array handed to from_le_bytes is a local
+                # initialised with `[0; N]`
+                root = b["hir"]["value"]
+                zeroed = set()
+                for n, _ in F.walk(root):
+                    if n.get("s") == "Let" and "init" in n and n.get("pat", {}).get("p") == "Bind":
+                        i_ = F.strip(n["init"])
+                        if i_.get("k") == "Repeat" and F.strip(i_["e"]).get("k") == "Lit" and str(F.strip(i_["e"])["value"].get("v")) in ("0", "0x0"):
+                            zeroed.add(n["pat"].get("local"))
+                for c, _ in F.calls(root):
+                    if (F.callee_def(c) or "").endswith("from_le_bytes") and c.get("args") and F.local_of(c["args"][0]) in zeroed:
+                        pads = [c]
             rep.oblige(bool(pads), "R07.3", "push-padding", F.loc(b["span"]), "PUSHn does not zero-extend a short immediate to a full word")
 
 
@@ -1018,6 +1055,8 @@ def check_key_agreement(fx, rep, cg):
             params = hir["params"]
             if len(params) < 2 or params[1].get("p") != "Bind":
                 continue
+            # read together with the type's own private helpers (a map-selection helper shared by writer and reader)
+            hir = F.inline_module_helpers(fx, b, max_nodes=400, methods=True)["hir"]
             if not any(n.get("k") == "Field" and n.get("field") in flds for n, _ in F.walk(hir["value"])):
                 continue
             kty = (fx.fns.get(b["def"], {}).get("inputs") or [None, ""])[1].lstrip("&").strip()
